@@ -248,6 +248,130 @@ fn net_s(r: &Result<EtherType, err::net::NetSetNextHeaderError>) -> String {
     }
 }
 
+// ---- arbitrary byte chains: rest as offset+length, readers ----
+fn dec6x_s(first: IpNumber, bs: &[u8]) -> String {
+    match Ipv6Extensions::from_slice(first, bs) {
+        Ok((e, n, rest)) => format!("ok:{}:{}:{}", exts6_s(&e), n.0, off(bs, rest)),
+        Err(e) => hse_s(&e),
+    }
+}
+fn lax6x_s(first: IpNumber, bs: &[u8]) -> String {
+    let (e, n, rest, er) = Ipv6Extensions::from_slice_lax(first, bs);
+    format!(
+        "{}:{}:{}:{}",
+        exts6_s(&e),
+        n.0,
+        off(bs, rest),
+        match &er {
+            None => "none".to_string(),
+            Some((x, l)) => format!("{}/{}", hse_s(x), layer_s(*l)),
+        }
+    )
+}
+fn dec4x_s(first: IpNumber, bs: &[u8]) -> String {
+    match Ipv4Extensions::from_slice(first, bs) {
+        Ok((e, n, rest)) => format!("ok:{}:{}:{}", exts4_s(&e), n.0, off(bs, rest)),
+        Err(e) => ase_s(&e),
+    }
+}
+fn lax4x_s(first: IpNumber, bs: &[u8]) -> String {
+    let (e, n, rest, er) = Ipv4Extensions::from_slice_lax(first, bs);
+    format!(
+        "{}:{}:{}:{}",
+        exts4_s(&e),
+        n.0,
+        off(bs, rest),
+        match &er {
+            None => "none".to_string(),
+            Some(x) => ase_s(x),
+        }
+    )
+}
+fn io_s(e: &std::io::Error) -> String {
+    if e.kind() == std::io::ErrorKind::UnexpectedEof {
+        "io:eof".to_string()
+    } else {
+        "io:other".to_string()
+    }
+}
+fn lim_len_s(e: &LenError) -> String {
+    let src = match e.len_source {
+        LenSource::Slice => "Slice",
+        LenSource::Ipv4HeaderTotalLen => "Ipv4HeaderTotalLen",
+        LenSource::Ipv6HeaderPayloadLen => "Ipv6HeaderPayloadLen",
+        _ => "OtherSource",
+    };
+    let layer = match e.layer {
+        Layer::Ipv4Header => "Ipv4Header",
+        Layer::Ipv6Header => "Ipv6Header",
+        l => layer_s(l),
+    };
+    format!("len:{},{},{},{},{}", e.required_len, e.len, layer, e.layer_start_offset, src)
+}
+fn content6_s(e: &err::ipv6_exts::HeaderError) -> String {
+    use err::ipv6_exts::HeaderError as H;
+    match e {
+        H::HopByHopNotAtStart => "hbh".to_string(),
+        H::IpAuth(err::ip_auth::HeaderError::ZeroPayloadLen) => "authzero".to_string(),
+    }
+}
+fn ok6_s(dref: Option<&Ipv6Extensions>, e: &Ipv6Extensions, n: IpNumber, pos: u64) -> String {
+    format!("ok:{}:{}:{}", if Some(e) == dref { "=d".to_string() } else { exts6_s(e) }, n.0, pos)
+}
+fn ok4_s(dref: Option<&Ipv4Extensions>, e: &Ipv4Extensions, n: IpNumber, pos: u64) -> String {
+    format!("ok:{}:{}:{}", if Some(e) == dref { "=d".to_string() } else { exts4_s(e) }, n.0, pos)
+}
+fn read6_s(dref: Option<&Ipv6Extensions>, first: IpNumber, bs: &[u8]) -> String {
+    use err::ipv6_exts::HeaderReadError as R;
+    let mut c = std::io::Cursor::new(bs);
+    match Ipv6Extensions::read(&mut c, first) {
+        Ok((e, n)) => ok6_s(dref, &e, n, c.position()),
+        Err(R::Io(e)) => io_s(&e),
+        Err(R::Content(e)) => content6_s(&e),
+    }
+}
+fn lim6_s(dref: Option<&Ipv6Extensions>, first: IpNumber, budget: usize, offset: usize, bs: &[u8]) -> String {
+    use err::ipv6_exts::HeaderLimitedReadError as R;
+    let mut lr = etherparse::io::LimitedReader::new(
+        std::io::Cursor::new(bs),
+        budget,
+        LenSource::Ipv6HeaderPayloadLen,
+        offset,
+        Layer::Ipv6Header,
+    );
+    match Ipv6Extensions::read_limited(&mut lr, first) {
+        Ok((e, n)) => ok6_s(dref, &e, n, lr.take_reader().position()),
+        Err(R::Io(e)) => io_s(&e),
+        Err(R::Len(e)) => lim_len_s(&e),
+        Err(R::Content(e)) => content6_s(&e),
+    }
+}
+fn read4_s(dref: Option<&Ipv4Extensions>, first: IpNumber, bs: &[u8]) -> String {
+    use err::ip_auth::HeaderReadError as R;
+    let mut c = std::io::Cursor::new(bs);
+    match Ipv4Extensions::read(&mut c, first) {
+        Ok((e, n)) => ok4_s(dref, &e, n, c.position()),
+        Err(R::Io(e)) => io_s(&e),
+        Err(R::Content(err::ip_auth::HeaderError::ZeroPayloadLen)) => "authzero".to_string(),
+    }
+}
+fn lim4_s(dref: Option<&Ipv4Extensions>, first: IpNumber, budget: usize, offset: usize, bs: &[u8]) -> String {
+    use err::ip_auth::HeaderLimitedReadError as R;
+    let mut lr = etherparse::io::LimitedReader::new(
+        std::io::Cursor::new(bs),
+        budget,
+        LenSource::Ipv4HeaderTotalLen,
+        offset,
+        Layer::Ipv4Header,
+    );
+    match Ipv4Extensions::read_limited(&mut lr, first) {
+        Ok((e, n)) => ok4_s(dref, &e, n, lr.take_reader().position()),
+        Err(R::Io(e)) => io_s(&e),
+        Err(R::Len(e)) => lim_len_s(&e),
+        Err(R::Content(err::ip_auth::HeaderError::ZeroPayloadLen)) => "authzero".to_string(),
+    }
+}
+
 /// true when `b` equals `a` except for next_header fields
 fn keep6(a: &Ipv6Extensions, b: &Ipv6Extensions) -> bool {
     let mut c = b.clone();
@@ -380,12 +504,46 @@ fn run(line: &str) -> String {
         "d6" => {
             let first = IpNumber(num(p[1]) as u8);
             let bs = unhex(p[2]);
-            format!("d={} x={}", dec6_s(None, first, &bs), lax6_s(None, first, &bs))
+            let d = Ipv6Extensions::from_slice(first, &bs);
+            let dref = d.as_ref().ok().map(|v| v.0.clone());
+            format!(
+                "d={} x={} wb={} r={} l={}",
+                dec6x_s(first, &bs),
+                lax6x_s(first, &bs),
+                match &d {
+                    Ok((e, _, _)) => format!("{}/{}", write6(e, first).2, walk6_s(&e.next_header(first))),
+                    Err(_) => "-".to_string(),
+                },
+                read6_s(dref.as_ref(), first, &bs),
+                lim6_s(dref.as_ref(), first, bs.len(), 40, &bs)
+            )
+        }
+        "l6" => {
+            let first = IpNumber(num(p[1]) as u8);
+            let bs = unhex(p[4]);
+            format!("l={}", lim6_s(None, first, num(p[2]) as usize, num(p[3]) as usize, &bs))
         }
         "d4" => {
             let first = IpNumber(num(p[1]) as u8);
             let bs = unhex(p[2]);
-            format!("d={} x={}", dec4_s(None, first, &bs), lax4_s(None, first, &bs))
+            let d = Ipv4Extensions::from_slice(first, &bs);
+            let dref = d.as_ref().ok().map(|v| v.0.clone());
+            format!(
+                "d={} x={} wb={} r={} l={}",
+                dec4x_s(first, &bs),
+                lax4x_s(first, &bs),
+                match &d {
+                    Ok((e, _, _)) => format!("{}/{}", write4(e, first).2, walk4_s(&e.next_header(first))),
+                    Err(_) => "-".to_string(),
+                },
+                read4_s(dref.as_ref(), first, &bs),
+                lim4_s(dref.as_ref(), first, bs.len(), 20, &bs)
+            )
+        }
+        "l4" => {
+            let first = IpNumber(num(p[1]) as u8);
+            let bs = unhex(p[4]);
+            format!("l={}", lim4_s(None, first, num(p[2]) as usize, num(p[3]) as usize, &bs))
         }
         "arp" => {
             let last = IpNumber(num(p[1]) as u8);
